@@ -3095,9 +3095,12 @@ func (t *Topic) replyDelTopic(sess *Session, asUid types.Uid, msg *ClientComMess
 		return t.replyLeaveUnsub(sess, msg, asUid)
 	}
 
-	// This is an indication of a bug.
+	// The hub forwards {del topic} to the topic only when the requester is not the owner, but
+	// ownership may have been transferred to the requester while the request was in transit.
+	// Do not leave the request unanswered.
 	logs.Err.Println("replyDelTopic called by owner (SHOULD NOT HAPPEN!)")
-	return nil
+	sess.queueOut(ErrOperationNotAllowedReply(msg, types.TimeNow()))
+	return errors.New("replyDelTopic: called by the topic owner")
 }
 
 // Delete credential
